@@ -143,6 +143,20 @@ CHECKS = {
              'success) and an unrelated STREAM NEW - 630 orders - in 4 variants (plain, same target host, second circuit still '
              'building, first circuit closing). Oracle on the ATTACHSTREAM/SETCONF lines and the connect() outcomes.',
         note='Trusted: mc/simtor.py, refs/socks5.py, the lazy SOCKS endpoint double. Tor reports addresses in lower case.'),
+    'C10': dict(
+        engine=E2, design='DESIGN.md section 4 / C10',
+        technique='explicit-state BFS over configuration-operation histories on the real TorConfig against a simulated Tor '
+                  'configuration store with control-spec SETCONF semantics; canonical-state dedup; reference = desired '
+                  'configuration + touched set',
+        text='Options of every parser class; operations assign / append / extend / insert / remove / pop / setitem / whole-list '
+             'assignment / assignment of [] and save answered 250, answered 5xx, or acknowledged only after the next operation; '
+             'every single option to depth 4 (quick) / 5 (thorough) and option pairs to depth 3 / 4 (thorough also three '
+             'triples) modulo canonical state. After every operation: nothing on the wire; after every save: exactly one '
+             'SETCONF naming exactly the touched options, the simulated store equals what the user set, reads equal the store, '
+             'a further save is silent; after a rejection the changes are still pending; edits made while a save is in flight '
+             'stay pending.',
+        note='Trusted: mc/simtor.py SETCONF semantics, refs/kvline.py. Known findings: emptied list sends no key; comma lists '
+             'are sent as repeated keys (both pinned by the repository\'s tests).'),
 }
 
 PENDING = {}
